@@ -20,8 +20,16 @@ def cmd_replay(path):
     with open(path) as f:
         doc = json.load(f)
     variant = doc.get('build_variant', 'plain')
-    binary = B.build(variant)
-    o = K.run_trace(binary, doc['minimised_trace'], timeout=120)
+    if doc.get('engine') == 'pysim':
+        from pysim import check as P
+        o = P.outcome_of(doc['minimised_trace'])
+    elif doc.get('engine') == 'detcompile':
+        from detcompile import check as D
+        return D.replay(doc, path)
+    else:
+        binary = B.build(variant)
+        K.IGNORE_UB[:] = [c for c in K.known_ub_classes(doc['property']) if c != doc['violation_class']]
+        o = K.run_trace(binary, doc['minimised_trace'], timeout=120)
     print('replay of %s (%s, class %s):' % (path, doc['property'], doc['violation_class']))
     print(doc['minimised_trace'])
     if o.failed and o.vclass == doc['violation_class']:
